@@ -82,8 +82,10 @@ where
             .merge_staged_commit(&self.provider, staged_commit)
             .map_err(|_e| Error::Message("Failed to merge staged commit".to_string()))?;
 
-        // Check if the local member was removed by this commit
-        if mls_group.own_leaf().is_none() {
+        // Check if the local member was removed by this commit. `own_leaf()` alone is not
+        // enough: a commit that removes us and adds someone else re-uses our leaf index, so a
+        // leaf is still found there although the group is no longer ours.
+        if !mls_group.is_active() || mls_group.own_leaf().is_none() {
             return self.handle_local_member_eviction(&group_id, event);
         }
 
